@@ -94,6 +94,7 @@ impl Property for C14 {
         let mut last_read_partial: Option<usize> = None;
         let mut classes: Vec<&'static str> = vec![];
         let buf = DATA + 0x100;
+        let a_call_failed = std::cell::Cell::new(false);
         let sys = |ax: &mut Axecutor, rax: u64, rdi: u64, rsi: u64, rdx: u64| -> (Api<u64>, Vec<prog::Event>) {
             ax.reg_write_64(SR::RIP, CODE_AT).unwrap();
             ax.reg_write_64(SR::RAX, rax).unwrap();
@@ -102,12 +103,25 @@ impl Property for C14 {
             ax.reg_write_64(SR::RDX, rdx).unwrap();
             let r = match step(ax) {
                 Api::Ok(_) => Api::Ok(ax.reg_read_64(SR::RAX).unwrap()),
-                Api::Err(e) => Api::Err(e),
+                Api::Err(e) => {
+                    a_call_failed.set(true);
+                    Api::Err(e)
+                }
                 Api::Panic(p) => Api::Panic(p),
             };
             (r, prog::take_events())
         };
         for (n, op) in c.ops.iter().enumerate() {
+            // whether a machine can go on after a failed step is not this property's business: if an
+            // earlier call of this history failed and the machine now counts as finished, the history ends
+            // (and is not drained)
+            if a_call_failed.get() && ax.verif_finished() {
+                let mut o = out.class("history-ended:machine-finished-after-a-failed-call");
+                for cl in classes.iter() {
+                    o = o.class(*cl);
+                }
+                return o;
+            }
             let desc = format!("op #{} {:x?}", n, op);
             match op {
                 Op::Pipe => {
@@ -306,7 +320,8 @@ impl Property for C14 {
             }
         }
         // drain: no loss, no duplication, pipes do not mix
-        for pi in 0..pipes.len() {
+        let dead = a_call_failed.get() && ax.verif_finished();
+        for pi in 0..(if dead { 0 } else { pipes.len() }) {
             let mut guard = 0;
             while !pipes[pi].2.is_empty() && guard < 400 {
                 guard += 1;
